@@ -189,7 +189,7 @@ class Program(object):
         for i in p["ignore"]:
             dr.add_ignore(obj, self.comp[i])
 
-    def registered(self, npad):
+    def registered(self, npad, keys=None):
         """The program as DECLARED by the driver (what was written in the decorators; for registry
         points the registration order of the implementations), padded to npad.  The enabled flag
         and ignore sets are read back from dr (they are set through its API)."""
@@ -206,12 +206,13 @@ class Program(object):
                         "outc": p["outc"], "eouts": list(p["eouts"]) + ["val"] * (self.listlen - len(p["eouts"])),
                         "coe": bool(p["coe"]),
                         "enabled": bool(dr.is_enabled(o)), "seeded": bool(p["seeded"]),
-                        "ingraph": bool(p["ingraph"]),
+                        "ingraph": bool(p["ingraph"]) if keys is None else (c in keys),
+                        "target": bool(p["ingraph"]),
                         "ignore": sorted(self.cid(x) for x in dr.IGNORE.get(o, []))})
         while len(out) < npad:
             out.append({"kind": "plain", "decl": [], "req": [], "grp": [], "flat": [], "outc": "val",
                         "eouts": ["val"] * self.listlen, "coe": True, "enabled": False, "seeded": False,
-                        "ingraph": False, "ignore": []})
+                        "ingraph": False, "target": False, "ignore": []})
         return out
 
     def graph(self):
@@ -361,7 +362,7 @@ def run_case(case, driver, npad, listlen, obsfail, idtag=""):
     try:
         pooled = driver.startswith("pool")
         rec = Recorder(prog, pooled, obsfail)
-        shared = driver.endswith("s") or driver in ("forced", "run") or any(p["seeded"] for p in case["prog"])
+        shared = driver.endswith("s") or driver in ("forced", "run", "closure") or any(p["seeded"] for p in case["prog"])
 
         def mkbroker():
             b = dr.Broker()
@@ -396,12 +397,30 @@ def run_case(case, driver, npad, listlen, obsfail, idtag=""):
 
         workers = 1
         escaped = None
+        observed = set()
         try:
             if driver == "forced":
                 b = mkbroker()
                 order = [prog.comp[a["c"]] for a in case["att"]]
                 rec.start_sub(graph, b)
                 dr.run_components(order, graph, b)
+            elif driver == "closure":
+                # the caller names targets; the engine derives the graph (determine_components /
+                # get_dependency_graph); what it evaluates is observed at run_components
+                b = mkbroker()
+                orig_rc = dr.run_components
+                targets = [prog.comp[c] for c in range(1, prog.n + 1) if case["prog"][c - 1]["ingraph"]]
+
+                def rc_wrapper(ordered, components, broker):
+                    rec.start_sub(components, broker)
+                    observed.update(prog.cid(k) for k in components)
+                    return orig_rc(ordered, components, broker)
+                dr.run_components = rc_wrapper
+                try:
+                    form = prog.variant % 3
+                    dr.run(targets[0] if len(targets) == 1 and form == 0 else (set(targets) if form == 1 else targets), b)
+                finally:
+                    dr.run_components = orig_rc
             elif driver == "run":
                 b = mkbroker()
                 dr.run = run_wrapper
@@ -431,10 +450,11 @@ def run_case(case, driver, npad, listlen, obsfail, idtag=""):
             rec.events.append({"ev": "escaped", "exc": escaped})
         else:
             rec.end()
-        mode = "single" if driver in ("forced", "run") else ("pool" if pooled else "incr")
+        mode = "single" if driver in ("forced", "run", "closure") else ("pool" if pooled else "incr")
         return {"id": "%s/%s%s%s" % (case["id"], driver, idtag, "/obsfail" if obsfail else ""),
                 "final": None if escaped else rec.final(),
-                "prog": prog.registered(npad), "ss": bool(case["ss"]), "mode": mode,
+                "prog": prog.registered(npad, observed if driver == "closure" else None), "closure": driver == "closure",
+                "ss": bool(case["ss"]), "mode": mode,
                 "workers": max(workers, len(rec.threads), 1), "events": rec.events}
     finally:
         prog.cleanup()
